@@ -109,6 +109,15 @@ def enumerate_cases(tier, scope):
                         for raising in (None, 0, 2):
                             sched = [['settle'], ['rpc', 'pause', 'pm'], ['settle'], ['rpc', 'play', None], ['settle'], list(first), ['settle'], list(second), ['settle']]
                             yield {'program': cat[name], 'schedule': sched, 'comm': comm, 'mode': 'quiescent', 'controller': 'thread', 'cleanup_raises': raising}
+        # a process that launches a child: the child is reachable through the same communicator and announces itself
+        child_prog = {'steps': [gen.S([['yield'], ['out', 'x', 1]], ['value', 1], True)]}
+        launcher = {'steps': [gen.S([['launch', child_prog, 7], ['yield'], ['yield']], ['wait', 1, None, None], True), gen.S([], ['value', 2])]}
+        for comm in ('bare', 'loop'):
+            for msgs in ([], [['rpc', 'pause', 'pm'], ['rpc', 'play', None]], [['rpc', 'kill', 'km']]):
+                sched = [['settle']]
+                for m in msgs:
+                    sched += [list(m), ['settle']]
+                yield {'program': launcher, 'schedule': sched, 'comm': comm, 'mode': 'quiescent', 'controller': 'thread'}
         # a listener that close()s the process from its termination notification (the last transition must still be
         # announced), and a process class whose kill() answers with a future resolving to the library's answer
         for name in ('wait1', 'chain', 'gated', 'async2'):
@@ -492,14 +501,24 @@ def execute(case):
             # broadcasts: exactly state_changed.<from>.<to> for every entered state, once, in order, sender = pid
             expected = ['state_changed.None.created'] + [f'state_changed.{frm}.{to}' for frm, to, _ in a.ex.transitions]
             # transitions that happened after close() are invisible to the monitor callback: use sampled states there
-            got = [s for _sender, s in a.inner.state_broadcasts]
+            got = [s for sender, s in a.inner.state_broadcasts if sender == a.ex.proc.pid]
+            # processes launched by the process share its communicator: they announce their own transitions under their pid
+            children = list(a.ex.world.extra.get('children', []))
+            for child in children:
+                theirs = [s for sender, s in a.inner.state_broadcasts if sender == child.pid]
+                ok = bool(theirs) and theirs[0] == 'state_changed.None.created' and theirs[-1].endswith('.' + child.state.value)
+                ok = ok and all(x.split('.')[2] == y.split('.')[1] for x, y in zip(theirs, theirs[1:]))
+                if not ok and not case.get('fail'):
+                    v('child-broadcasts', f'launched child {child.pid} ended {child.state.value} but announced {theirs}')
+            if children:
+                classes.append('launched-children')
             failed = a.inner.failed
             exp_after_fault = [s for i, s in enumerate(expected) if not (case.get('fail') and case['fail']['index'] <= i + 1 < case['fail']['index'] + case['fail'].get('count', 1))]
             if failed:
                 classes.append('broadcast-failed:' + case['fail']['exc'])
             if got != (exp_after_fault if failed else expected):
                 v('state-broadcasts', f'announced {got}, transitions were {expected}' + (f' (broadcast #{case["fail"]["index"]} made to fail)' if failed else ''))
-            if any(sender != a.ex.proc.pid for sender, _ in a.inner.state_broadcasts):
+            if any(sender != a.ex.proc.pid and sender not in [c.pid for c in children] for sender, _ in a.inner.state_broadcasts):
                 v('broadcast-sender', str(a.inner.state_broadcasts[:3]))
             for ctx in a.ex.loop.escapes():
                 v('loop-exception', f"{ctx['message'][:70]} {ctx['exc_type']}: {ctx['exc_str']}")
